@@ -399,3 +399,28 @@ def run_codec(harness, model, cases, wd, tag, shards=16, timeout=3000, profile_e
         mlines.append(l)
     mod = _run_codec_side(model, cases, mlines, wd, tag + ".model", shards, timeout)
     return impl, mod
+
+
+def proof_coverage(rep, ob, prop_file, extra_trusted=None):
+    ax = "axioms: none (every theorem: Closed under the global context)" \
+        if all(not v for v in ob["axioms"].values()) and not ob["broken"] else "axioms: " + str(ob["axioms"])
+    rep.coverage.update({
+        "obligations": ob["obligations"], "discharged": ob["discharged"],
+        "checker_cmd": f"make -C coq Props/{prop_file}.vo && coqc -Q coq Desert coq/Props/{prop_file}.v "
+                       "(Print Assumptions per theorem; forbidden-construct scan over coq/)",
+        "trusted_base": TRUSTED_COMMON + [ax] + (extra_trusted or []),
+        "theorems": ob["theorems"],
+    })
+
+
+def report_broken(rep, ob, disagreements, stream, found_input):
+    """A broken obligation or correspondence for which the search found no failing input."""
+    if found_input:
+        return
+    if ob["broken"] or disagreements:
+        first = disagreements[0] if disagreements else None
+        rep.violation("obligations or model/implementation correspondence no longer check: "
+                      + "; ".join(ob["broken"] + ([f"first disagreement in {stream}: {first[0]}"] if first else [])),
+                      {"kind": "correspondence", "broken_obligations": ob["broken"], "stream": stream,
+                       "first_disagreement": first, "n_disagreements": len(disagreements),
+                       "coq_log": ob.get("log", "")}, no_input=True)
